@@ -19,7 +19,7 @@ R_KEYS = ["C", "N", "O", "?"]
 def run(rep, tier, seed, budget):
     ctx = Ctx.get()
     quick = tier == "quick"
-    total = budget or (80 if quick else 1200)
+    total = budget or (105 if quick else 1200)
     t_end = time.time() + total
     bc = ctx.bc
     DIG = ["0", "1", "2", "9", "²"]
@@ -202,6 +202,79 @@ def run(rep, tier, seed, budget):
         res = driver.explore_parallel(rej_path, min(30, left * 0.8))
         rep.add_part("iii: accepted table A (free), then a rejected update: alphabet and 2-symbol strings still follow A", res,
                      {"rejected_tables": BAD, "A": "C, N, ? free; O = 2"})
+
+    # (iv) a sequence of accepted tables: A is set and used (alphabet, decoder), then B is handed over as a fresh dict, as
+    # the same dict object edited in place, or as an equal-looking dict after the caller edited the one passed before
+    MODES = ["fresh", "same_object", "edited_then_equal"]
+
+    def acc_path(eng, col):
+        ctx.reset()
+        A = {"C": fresh_int("aC", 0, 4), "N": 3, "O": 2, "?": 1}
+        B = {"C": fresh_int("bC", 0, 4), "N": fresh_int("bN", 0, 4), "O": 2, "?": 1}
+        mode = MODES[int(fresh_int("mode", 0, 2))]
+        toks = make_tokens("t", 2, ["[C]", "[=C]", "[#C]", "[N]", "[#N]", "[Branch1]", "[Ring1]"])
+        d = dict(A)
+        bc.set_semantic_constraints(d)
+        bc.get_semantic_robust_alphabet()
+        dech.run_decoder(ctx, TokStr(toks))
+        if mode == "fresh":
+            bc.set_semantic_constraints(dict(B))
+        elif mode == "same_object":
+            d.clear()
+            d.update(B)
+            bc.set_semantic_constraints(d)
+        else:
+            d.clear()
+            d.update(B)
+            bc.set_semantic_constraints(dict(B))
+        for t in toks:
+            for i, s_ in enumerate(t.vals):
+                if s_ in FIXED:
+                    continue
+                if s_[-2] in "CNO":
+                    eng.assume(z3.Implies(t.e == i, zint(B[s_[-2]]) >= BONDS[s_[1:-2]]))
+        alpha = set(str(a) for a in bc.get_semantic_robust_alphabet())
+        bads = []
+        hard = False
+        got = bc.get_semantic_constraints()
+        if set(got) != set(B):
+            hard = True
+        else:
+            for k in B:
+                c = got[k] != B[k]
+                if c is True:
+                    hard = True
+                elif c is not False:
+                    bads.append(c.e)
+        for k in ("C", "N", "O"):
+            for b, o in BONDS.items():
+                sym = "[%s%s]" % (b, k)
+                if sym in FIXED:
+                    continue
+                bads.append((zint(B[k]) < o) if sym in alpha else (zint(B[k]) >= o))
+        if (alpha - FIXED) - {"[%s%s]" % (b, k) for k in ("C", "N", "O") for b in BONDS}:
+            hard = True
+        r = dech.run_decoder(ctx, TokStr(toks))
+        if r[0] != "ok":
+            hard = True
+        else:
+            out = str(r[1])
+            faults, vb, mol = dech.valence_bads(out, B)
+            bads += vb
+            if faults:
+                hard = True
+            col.nontrivial((mode, out))
+            col.sample({"mode": mode, "output": out})
+        m = eng.current_model() if hard else eng.find_model(bads)
+        if m is not None:
+            col.candidate({"prop": "C07", "kind": "robust_after_accept", "table_a": table_model(m, A), "table_b": table_model(m, B),
+                           "mode": mode, "selfies": dech.concrete_selfies(m, toks)})
+
+    left = t_end - time.time()
+    if left > 4:
+        res = driver.explore_parallel(acc_path, min(30, left * 0.8))
+        rep.add_part("iv: accepted table A (free), used, then accepted table B (free; fresh dict / same dict edited in place / equal dict after the caller edited the old one): alphabet, get and 2-symbol strings follow B", res,
+                     {"modes": MODES, "A": "C free in 0..4, N = 3, O = 2, ? = 1", "B": "C, N free in 0..4, O = 2, ? = 1", "symbols": 2})
 
     rep.assumptions += ["part i goes through the real set_semantic_constraints (validation included); the key is concretised (one path per key spelling), values stay symbolic",
                         "part ii installs the table directly and assumes every token is in the robust alphabet of the table: index symbols unconditionally, other atom symbols iff order <= capacity",
